@@ -57,6 +57,15 @@ def run(chk: core.Check, tier: str, seed: int) -> None:
         for _ in range(6):
             pre = rng.choice(["$\n.a", "$ \n\n[0]", "$['a',\n'b']\n", "$\r\n.x"])
             texts.append(pre + inject(q[1:].replace("(", "( ").replace("==", " == "), rng))
+    # wrong numbers of arguments, with the call at the very END of the query and arguments whose serialised form is longer than
+    # their source text (shorthand names, no blanks): an offset computed from anything but the source runs past the text
+    texts += corpus.typed_builtin_texts()
+    args = ["@.a", "@.a.b", "$.a", "@['a']", "1", "'x'", "@.*", "@.a==1", "@..a", "true", "@"]
+    for f in ("length", "count", "value", "match", "search"):
+        for n in (0, 1, 2, 3):
+            for _ in range(4):
+                call = f + "(" + ",".join(rng.choice(args) for _ in range(n)) + ")"
+                texts += [f"$[?{call}]", f"$[?{call}==1]", f"$.a[?!{call}]", f"$[?@.b&&{call}]", "$\n[?" + call + "]"]
     for t in corpus.literal_queries():
         texts.append(t)
         texts.append("$.a\n" + t[1:])
